@@ -2,8 +2,8 @@
    Property theorems only; proofs live in Proofs/WsReadHdr.v, WsReadA.v, WsReadB.v, WsReadC.v.
    Model: Model/WsRead.v (advanceFrame, NextReader, messageReader, ReadMessage loop, handlers, limits)
    over the peer's whole byte stream.  Reference decoder: Model/WsReadSpec.v (written from the RFCs'
-   MUSTs, parameterised by the set of enforced rules).  compress/flate is the function parameter [infl]
-   of every statement (never an axiom); the decompressed-size limit is applied per message. *)
+   MUSTs, parameterised by the set of enforced rules).  compress/flate enters as function parameters
+   (never axioms): [infl] for a whole message and [rc_avail] for the output produced from a prefix. *)
 From Coq Require Import String List NArith Bool.
 From Cfg Require Import Gen.WsConst Model.WsUtf8 Model.WsClose Model.WsCloseSpec Model.WsFrame Model.WsRead Model.WsReadSpec
      Proofs.WsReadA Proofs.WsReadB Proofs.WsReadC.
@@ -20,7 +20,7 @@ Theorem C29_model_is_reference : forall cfg infl bs,
     125 <= rc_rbuf cfg ->
     map norm_event (read_all cfg infl bs)
     = expected (spec_read (go_policy (rc_close1_strict cfg) is_valid_received_close_code)
-                          (mkScfg (rc_server cfg) (rc_compress cfg) (rc_limit cfg) (rc_dlimit cfg))
+                          (mkScfg (rc_server cfg) (rc_compress cfg) (rc_limit cfg) (rc_dlimit cfg) (rc_avail cfg))
                           (fun d => infl (d ++ flate_tail)) bs).
 Proof. exact read_all_eq_ref. Qed.
 Print Assumptions C29_model_is_reference.
@@ -72,7 +72,9 @@ Proof.
 Qed.
 Print Assumptions C29_reject.
 
-(* read limits (announced size of the message on the wire, and size after decompression) *)
+(* read limits: announced size of the message on the wire, and size after decompression - the latter in
+   its streaming form: the reader may give up inside a message, as soon as the part received so far
+   inflates beyond the limit (rc_avail: progress of the flate reader, a library parameter) *)
 Theorem C29_limits : forall cfg infl bs,
     125 <= rc_rbuf cfg ->
     end_of (strict_events cfg infl bs) = Some OTooBig ->
@@ -113,7 +115,7 @@ Print Assumptions C29_no_panic.
      forall cfg infl bs, map norm_event (read_all cfg infl bs) = expected (strict_events cfg infl bs).
    It fails for each relaxed rule and for read buffers smaller than a control frame; each witness
    below is replayed on the real Conn by the driver's corpus (findings). *)
-Definition srv (compress : bool) (limit rbuf : N) : rcfg := mkRcfg true compress limit 0 rbuf false.
+Definition srv (compress : bool) (limit rbuf : N) : rcfg := mkRcfg true compress limit 0 rbuf false no_avail.
 Definition no_flate (_ : bytes) : option bytes := None.
 
 (* the statement for one configuration and stream *)
